@@ -507,6 +507,8 @@ func main() {
 	}
 	var mu sync.Mutex
 	total := 0
+	capped := 0
+	deadline := time.Now().Add(evid.Pick(run, 10*time.Minute, 25*time.Minute))
 	var wg sync.WaitGroup
 	sem := make(chan struct{}, runtime.NumCPU())
 	for f := 0; f < first; f++ {
@@ -517,6 +519,13 @@ func main() {
 			defer wg.Done()
 			defer func() { <-sem }()
 			n, _ := seqmc.EnumerateFrom([]int{f}, 0, func(ch *seqmc.Chooser) {
+				if time.Now().After(deadline) {
+					// out of time: making no choice ends the enumeration of this sub-tree
+					mu.Lock()
+					capped++
+					mu.Unlock()
+					return
+				}
 				v, trace := runScript(depth, ch)
 				if v != nil {
 					run.Violate(evid.Violation{Kind: v.kind, Site: v.site, Detail: v.detail, Witness: map[string]any{"script": trace, "choices": ch.Trace()}})
@@ -532,7 +541,10 @@ func main() {
 	run.Set("states", first)
 	run.Set("transitions", total)
 	run.Set("traces_validated_against_impl", total)
-	run.Set("exhaustive", true)
+	run.Set("exhaustive", capped == 0)
+	if capped > 0 {
+		run.Set("caps_hit", fmt.Sprintf("time budget: %d of %d first-level sub-trees were cut short", capped, first))
+	}
 	run.Set("depth", depth)
 	run.Sample(map[string]any{"script": []string{"E0 crafts InitHello with a-genuine-claim for B1", "E0 crafts InitDone with e-signs-this-binding for B1", "E0 sends data (counter 16) to B1"}})
 	run.Set("explanation", "states = first-level attacker actions (sub-trees); transitions = complete attack scripts (every sequence of relayed / crafted messages up to the depth bound, each executed against fresh real honest Sessions with the oracle evaluated after every delivery)")
